@@ -311,8 +311,8 @@ pub fn canary(kind: &str) {
 
 fn lean_session<C: embedded_cli::service::Autocomplete + embedded_cli::service::Help>(cfg: &SessionCfg, ops: &[Op]) -> Result<usize, String> {
     use crate::sink::MonSink;
-    let mut cmd_buf = vec![0xAAu8; cfg.cmd].into_boxed_slice();
-    let mut hist_buf = vec![0xAAu8; cfg.hist].into_boxed_slice();
+    let mut cmd_buf = crate::rig::filled(cfg.cmd, cfg.cmd + 3 * cfg.hist + cfg.prompt);
+    let mut hist_buf = crate::rig::filled(cfg.hist, cfg.hist + 5 * cfg.cmd + cfg.prompt + 1);
     let sink = MonSink::new();
     let mut proc = RecProc::new(cfg.script.clone(), cfg.set.parse_fn());
     proc.pform = cfg.pform;
